@@ -284,11 +284,11 @@ def _bmc_worker(args):
     return r
 
 
-def write_consts(ctx, name, nt, nx, sync=False, rollback=False, faults=False, crash=False, versions=False):
+def write_consts(ctx, name, nt, nx, sync=False, rollback=False, faults=False, crash=False, versions=False, budget=1):
     p = os.path.join(ctx.out, 'consts_%s.go' % name)
     b = lambda x: 'true' if x else 'false'
     open(p, 'w').write('//go:build verif\n\npackage verifv2\n\nconst (\n\tNT = %d\n\tNX = %d\n\tWithSync = %s\n\tWithRollback = %s\n'
-                       '\tWithFaults = %s\n\tWithCrash = %s\n\tWithVersions = %s\n)\n' % (nt, nx, b(sync), b(rollback), b(faults), b(crash), b(versions)))
+                       '\tWithFaults = %s\n\tWithCrash = %s\n\tWithVersions = %s\n\tBudget = %d\n)\n' % (nt, nx, b(sync), b(rollback), b(faults), b(crash), b(versions), budget))
     return p
 
 
